@@ -154,15 +154,19 @@ Definition w_datagram (c : cfg) (s : st) (len : Z) : wres :=
 Definition w_crypto_with (c : cfg) (s : st) (ov off len : Z) : wres :=
   do_frame c s W_crypto_frame_0_ft (W_crypto_frame_0_cap ov) (W_crypto_frame_0_pushes off len len).
 
-(* _write_crypto_frame on the sender [snd] of the crypto stream *)
-Definition w_crypto (c : cfg) (s : st) (snd : send) : wres :=
-  if vsz_raises (next_offset snd) then (OValue, s, []) else
-  let ov := W_crypto_frame_frame_overhead (next_offset snd) in
-  match fst (get_frame snd (remaining_flight_space s - ov) None) with
+(* _write_crypto_frame; nxt = stream.sender.next_offset, gf max_size = what stream.sender.get_frame(max_size) returns *)
+Definition w_crypto_gen (c : cfg) (s : st) (nxt : Z) (gf : Z -> sout) : wres :=
+  if vsz_raises nxt then (OValue, s, []) else
+  let ov := W_crypto_frame_frame_overhead nxt in
+  match gf (remaining_flight_space s - ov) with
   | SFrame off data _ => w_crypto_with c s ov off (Zlen data)
   | SNone => wskip s
   | _ => (OAssertion, s, [])
   end.
+
+(* ... on the C10 sender [snd] of the crypto stream *)
+Definition w_crypto (c : cfg) (s : st) (snd : send) : wres :=
+  w_crypto_gen c s (next_offset snd) (fun ms => fst (get_frame snd ms None)).
 
 (* frame_type = STREAM_BASE | 2, | 4 with an offset, | 1 with FIN *)
 Definition stream_ft (off : Z) (fin : bool) : Z :=
@@ -171,16 +175,24 @@ Definition stream_ft (off : Z) (fin : bool) : Z :=
 Definition w_stream_with (c : cfg) (s : st) (sid ov off len : Z) (fin : bool) : wres :=
   do_frame c s (W_stream_frame_0_ft (stream_ft off fin)) (W_stream_frame_0_cap ov) (W_stream_frame_0_pushes sid off len len).
 
-(* _write_stream_frame on stream [sid] with sender [snd] and max_offset [mo] *)
-Definition w_stream (c : cfg) (s : st) (sid : Z) (snd : send) (mo : Z) : wres :=
-  if vsz_raises sid || vsz_raises (next_offset snd) then (OValue, s, []) else
-  let ov := W_stream_frame_frame_overhead sid (next_offset snd) in
-  if (remaining_flight_space s <? ov) || (remaining_buffer_space s <? ov) then (OStop, s, []) else
-  match fst (get_frame snd (remaining_flight_space s - ov) (Some mo)) with
+(* the check added before get_frame: raise QuicPacketBuilderStop unless the frame header fits both spaces *)
+Definition stream_gate (s : st) (ov : Z) : bool :=
+  (remaining_flight_space s <? ov) || (remaining_buffer_space s <? ov).
+
+(* _write_stream_frame; gf max_size = what stream.sender.get_frame(max_size, max_offset) returns *)
+Definition w_stream_gen (c : cfg) (s : st) (sid nxt : Z) (gf : Z -> sout) : wres :=
+  if vsz_raises sid || vsz_raises nxt then (OValue, s, []) else
+  let ov := W_stream_frame_frame_overhead sid nxt in
+  if stream_gate s ov then (OStop, s, []) else
+  match gf (remaining_flight_space s - ov) with
   | SFrame off data fin => w_stream_with c s sid ov off (Zlen data) fin
   | SNone => wskip s
   | _ => (OAssertion, s, [])
   end.
+
+(* ... on stream [sid] with the C10 sender [snd] and max_offset [mo] *)
+Definition w_stream (c : cfg) (s : st) (sid : Z) (snd : send) (mo : Z) : wres :=
+  w_stream_gen c s sid (next_offset snd) (fun ms => fst (get_frame snd ms (Some mo))).
 
 (* ---------- the packet loops ------------------------------------------------------------------------------ *)
 
@@ -327,19 +339,14 @@ Definition dts (c : cfg) (s : st) (d : dts_in) : wres := wseq (dts_body c s d) (
 Definition dts_trace (c : cfg) (pn : Z) (d : dts_in) : list op := snd (dts c (init_st c pn) d).
 
 (* ---------- executable interface (tie) ----------------------------------------------------------------------
-   One case per real _write_* call:  wid  empty rbs rfs pn  args...   (writer ids of gen/C13Writers.v)
-   The builder state is synthetic: an open packet with the given remaining_buffer_space / remaining_flight_space /
-   packet_number, empty or not.  Output: outcome code, number of frames, then per start_frame (type, capacity, bytes
-   pushed after the type, 1 if the frame was started / 0 if start_frame raised). *)
-Definition syn_cfg (rbs rfs : Z) : cfg :=
-  mkCfg true (100 + AEAD_TAG_SIZE + Z.max 0 (Z.max rbs rfs)) 8 8 0 None None None.
-
-Definition syn_st (empty : bool) (rbs rfs pn : Z) : st :=
-  let tell := if empty then 50 else 100 in
-  mkSt tell (tell + AEAD_TAG_SIZE + rbs) (tell + AEAD_TAG_SIZE + rfs) 0 false false 0 0
-       (Some (mkPkt PT_ONE_RTT 0 50 false false false pn)) true pn [] [] false [].
-
-(* group a trace into frames; [ok] says whether the last start_frame succeeded (the trace stops at a failed one) *)
+   A builder session of one datagrams_to_send call as connection.py drove it, with the field values of every writer call:
+     input:  is_client mds peer host token  mf_opt mt_opt cmax_opt  pn   ops...        (as exec_builder)
+     ops:    0 t              = builder.start_packet(t)
+             1 wid n a1..an   = the writer with id wid (gen/C13Writers.v) called with field values a1..an
+             3                = builder.flush()
+     output per op: outcome code, [writer: number of start_frame calls, per call (type, capacity, bytes pushed after the
+             type)], the observers of exec_builder (remaining_buffer_space, remaining_flight_space, packet_is_empty,
+             packet_number), [flush: datagram lengths]. *)
 Fixpoint sum_pushes (tr : list op) : Z * list op :=
   match tr with
   | OpPush n :: t => let '(a, r) := sum_pushes t in (n + a, r)
@@ -354,10 +361,9 @@ Fixpoint frames_of (fuel : nat) (tr : list op) : list (Z * Z * Z) :=
   | [] => []
   end end.
 
-Definition out_wres (r : wres) : list Z :=
-  let '(o, _, tr) := r in
+Definition out_frames (tr : list op) : list Z :=
   let fs := frames_of (length tr) tr in
-  out_outcome o :: Zlen fs :: flat_map (fun x => let '(ft, cap, a) := x in [ft; cap; a]) fs.
+  Zlen fs :: flat_map (fun x => let '(ft, cap, a) := x in [ft; cap; a]) fs.
 
 Fixpoint rd_pairs (n : nat) (t : list Z) : list (Z * Z) :=
   match n, t with
@@ -365,50 +371,68 @@ Fixpoint rd_pairs (n : nat) (t : list Z) : list (Z * Z) :=
   | _, _ => []
   end.
 
-Definition exec_writer_case (t : list Z) : list Z :=
+(* the recorded result of sender.get_frame: 0 = None | 1 offset length fin *)
+Definition rd_frame (t : list Z) : sout :=
   match t with
-  | wid :: empty :: rbs :: rfs :: pn :: a =>
-      let c := syn_cfg rbs rfs in
-      let s := syn_st (z2b empty) rbs rfs pn in
-      if wid =? 0 then
-        match a with
-        | largest :: delay :: first :: n :: r => out_wres (w_ack c s largest delay first (rd_pairs (Z.to_nat n) r))
-        | _ => [] end
-      else if wid =? 1 then
-        match a with
-        | early :: code :: hasft :: ft :: rlen :: loss :: _ =>
-            out_wres (w_close c s (z2b early) code (if hasft =? 0 then None else Some ft) rlen loss)
-        | _ => [] end
-      else if wid =? 2 then match a with ft :: v :: _ => out_wres (w_conn_limit c s ft v) | _ => [] end
-      else if wid =? 3 then match a with nxt :: off :: len :: _ =>
-             out_wres (w_crypto_with c s (W_crypto_frame_frame_overhead nxt) off len) | _ => [] end
-      else if wid =? 4 then match a with len :: _ => out_wres (w_datagram c s len) | _ => [] end
-      else if wid =? 5 then out_wres (w_handshake_done c s)
-      else if wid =? 6 then match a with seq :: cl :: _ => out_wres (w_new_connection_id c s seq cl) | _ => [] end
-      else if wid =? 7 then out_wres (w_path_challenge c s)
-      else if wid =? 8 then out_wres (w_path_response c s)
-      else if wid =? 9 then out_wres (w_ping c s)
-      else if wid =? 10 then match a with sid :: code :: fin :: _ => out_wres (w_reset_stream c s sid code fin) | _ => [] end
-      else if wid =? 11 then match a with seq :: _ => out_wres (w_retire_connection_id c s seq) | _ => [] end
-      else if wid =? 12 then match a with sid :: code :: _ => out_wres (w_stop_sending c s sid code) | _ => [] end
-      else if wid =? 13 then match a with sid :: nxt :: off :: len :: fin :: _ =>
-             out_wres (w_stream_with c s sid (W_stream_frame_frame_overhead sid nxt) off len (z2b fin)) | _ => [] end
-      else if wid =? 14 then match a with sid :: v :: _ => out_wres (w_stream_limit c s sid v) | _ => [] end
-      else if wid =? 15 then match a with ft :: lim :: _ => out_wres (w_streams_blocked c s ft lim) | _ => [] end
-      else []
-  | _ => []
+  | 1 :: off :: len :: fin :: _ => SFrame off (repeat 0 (Z.to_nat len)) (z2b fin)
+  | _ => SNone
   end.
 
-(* input: cases separated by their length:  n t1..tn  n' ...   output: per case  m o1..om *)
-Fixpoint exec_writer_loop (fuel : nat) (t : list Z) : list Z :=
+Definition exec_w (c : cfg) (s : st) (wid : Z) (a : list Z) : option wres :=
+  if wid =? 0 then
+    match a with
+    | largest :: delay :: first :: n :: r => Some (w_ack c s largest delay first (rd_pairs (Z.to_nat n) r))
+    | _ => None end
+  else if wid =? 1 then
+    match a with
+    | early :: code :: hasft :: ft :: rlen :: loss :: _ =>
+        Some (w_close c s (z2b early) code (if hasft =? 0 then None else Some ft) rlen loss)
+    | _ => None end
+  else if wid =? 2 then
+    match a with n :: r => Some (w_list (fun s x => w_conn_limit c s (fst x) (snd x)) s (rd_pairs (Z.to_nat n) r)) | _ => None end
+  else if wid =? 3 then match a with nxt :: r => Some (w_crypto_gen c s nxt (fun _ => rd_frame r)) | _ => None end
+  else if wid =? 4 then match a with len :: _ => Some (w_datagram c s len) | _ => None end
+  else if wid =? 5 then Some (w_handshake_done c s)
+  else if wid =? 6 then match a with seq :: cl :: _ => Some (w_new_connection_id c s seq cl) | _ => None end
+  else if wid =? 7 then Some (w_path_challenge c s)
+  else if wid =? 8 then Some (w_path_response c s)
+  else if wid =? 9 then Some (w_ping c s)
+  else if wid =? 10 then match a with sid :: code :: fin :: _ => Some (w_reset_stream c s sid code fin) | _ => None end
+  else if wid =? 11 then match a with seq :: _ => Some (w_retire_connection_id c s seq) | _ => None end
+  else if wid =? 12 then match a with sid :: code :: _ => Some (w_stop_sending c s sid code) | _ => None end
+  else if wid =? 13 then match a with sid :: nxt :: r => Some (w_stream_gen c s sid nxt (fun _ => rd_frame r)) | _ => None end
+  else if wid =? 14 then
+    match a with n :: r => Some (w_list (fun s x => w_stream_limit c s (fst x) (snd x)) s (rd_pairs (Z.to_nat n) r)) | _ => None end
+  else if wid =? 15 then match a with ft :: lim :: _ => Some (w_streams_blocked c s ft lim) | _ => None end
+  else None.
+
+Fixpoint exec_wops (fuel : nat) (c : cfg) (s : st) (toks : list Z) : list Z :=
   match fuel with O => [] | S fuel =>
-  match t with
-  | n :: r =>
-      let case := firstn (Z.to_nat n) r in
-      let out := exec_writer_case case in
-      Zlen out :: out ++ exec_writer_loop fuel (skipn (Z.to_nat n) r)
-  | [] => []
+  match toks with
+  | 0 :: t :: r => let '(o, s') := start_packet c s t in out_outcome o :: obs s' ++ exec_wops fuel c s' r
+  | 1 :: wid :: n :: r =>
+      match exec_w c s wid (firstn (Z.to_nat n) r) with
+      | Some (o, s', tr) => out_outcome o :: out_frames tr ++ obs s' ++ exec_wops fuel c s' (skipn (Z.to_nat n) r)
+      | None => []
+      end
+  | 3 :: r =>
+      let '(o, s', d, _) := flush c s in
+      out_outcome o :: obs s' ++ (Zlen d :: d) ++ exec_wops fuel c s' r
+  | _ => []
   end end.
 
 (* EXTRACT: exec_writers *)
-Definition exec_writers (toks : list Z) : list Z := exec_writer_loop (length toks) toks.
+Definition exec_writers (toks : list Z) : list Z :=
+  match toks with
+  | cl :: mds :: peer :: host :: token :: r =>
+      let '(mf, r) := tk_opt r in
+      let '(mt, r) := tk_opt r in
+      let '(cm, r) := tk_opt r in
+      match r with
+      | pn :: r =>
+          let c := mkCfg (z2b cl) mds peer host token mf mt cm in
+          exec_wops (length r) c (init_st c pn) r
+      | [] => []
+      end
+  | _ => []
+  end.
